@@ -70,7 +70,7 @@ def gen_case(rng, tier, index):
     if rng.random() < 0.45:
         T = rng.choice([1, 2, 2, 3, 4, 5, 6])
         n = rng.choice([0, 1, 2, 3, T, T + 1, 2 * T + 1, 2 * T + 2, 2 * T + 3,
-                        rng.randrange(0, 15)])
+                        rng.randrange(0, 15 if tier == "quick" else 40)])
         lens = [rng.randrange(1, 6) for _ in range(n)]
         if lens:
             lens[-1] = rng.randrange(1, lens[-1] + 1)
